@@ -235,11 +235,27 @@ fn mk_probes<T: Repr + Send + Sync + 'static>(
     probes: &mut Vec<Box<dyn ProbeCtl>>,
     subscribe: &mut Vec<Box<dyn Fn()>>,
 ) {
+    let mut ps: Vec<Arc<Probe<T>>> = vec![];
     for (i, s) in specs.iter().enumerate() {
         let p = Probe::<T>::new(world, i, label, s.clone());
         probes.push(Box::new(Arc::clone(&p)));
+        ps.push(Arc::clone(&p));
         let out = Arc::clone(output);
         subscribe.push(Box::new(move || p.subscribe(&out)));
+    }
+    // attach-from-inside-a-handler wiring (share)
+    for (i, s) in specs.iter().enumerate() {
+        if let Some((trigger, k, j)) = s.attach {
+            if j < ps.len() && j != i {
+                let other = Arc::clone(&ps[j]);
+                let out = Arc::clone(output);
+                *ps[i].hook.lock().unwrap() = Some(Arc::new(move |t: u8, kk: usize| {
+                    if t == trigger && (t != 1 || kk == k) {
+                        other.subscribe(&out);
+                    }
+                }));
+            }
+        }
     }
 }
 
